@@ -516,7 +516,9 @@ Definition call_dyn (C : option ictx) := call_dyn_with (parse_function_fuel C fn
 Inductive item :=
 | IStmt (s : stmt)                 (* a statement at column 0: setup scope, depth 0 *)
 | IDef (name : ident) (src : fsrc)
-| ILoop (body : block).            (* while True: parsed in the top-level ctx itself, locals of loop() *)
+| ILoop (body : block).            (* while True: parsed in the top-level ctx itself; a name first assigned at its body
+                                      level (directly or hoisted there) is a sketch GLOBAL like one of column 0 -
+                                      nothing is a local of loop() any more ([p_loop] stays empty) *)
 
 Record pstate := mk_pstate {
   p_fe : fenv; p_ctx : dctx;
@@ -539,11 +541,11 @@ Definition run_item (C : option ictx) (ps : pstate) (it : item) : option pstate 
           else Some (mk_pstate fe1 (st_ctx st1) (st_decls st1) (p_loop ps) (a_labels (st_acc st1)))
       end
   | ILoop b =>
-      match run_block fenv (call_dyn C) C (p_fe ps) (mk_bstate (p_ctx ps) (p_loop ps) (mk_acc (p_labels ps) [] false)) b with
+      match run_block fenv (call_dyn C) C (p_fe ps) (mk_bstate (p_ctx ps) (p_globals ps) (mk_acc (p_labels ps) [] false)) b with
       | None => None
       | Some (fe1, st1) =>
           if fe_err fe1 then None
-          else Some (mk_pstate fe1 (st_ctx st1) (p_globals ps) (st_decls st1) (a_labels (st_acc st1)))
+          else Some (mk_pstate fe1 (st_ctx st1) (st_decls st1) (p_loop ps) (a_labels (st_acc st1)))
       end
   | IDef name src =>
       match parse_def C (p_fe ps) (p_ctx ps) name src with
